@@ -1,8 +1,357 @@
-//! C17 — not implemented yet (stub).
-use crate::engine::Opts;
-pub fn main(_opts: &Opts) -> i32 {
-    eprintln!("C17: check not implemented");
-    2
+//! C17 — relativising an IRI against a base is the inverse of resolving.
+//!
+//! Oracle: round trip. `Some(r)` must be a valid IRI reference (RFC 3987 recogniser of c09::rfc),
+//! contain at most `parents` ".." segments, and `BaseIri::resolve(r)` must give back exactly the
+//! IRI; an IRI with the same scheme/authority/path as the base must be relativised.
+//! The RFC 3986 reference resolver of c09::rfc is run as well; where it disagrees with sophia's
+//! resolver (C09's recorded resolver findings) the case is only counted.
+use crate::c09::rfc;
+use crate::engine::*;
+use proptest::prelude::*;
+use serde::{Deserialize, Serialize};
+use serde_json::{json, Value};
+
+#[derive(Clone, Debug, Serialize, Deserialize)]
+pub struct Case {
+    pub base: String,
+    pub iri: String,
+    pub parents: u8,
+}
+
+pub struct C17;
+
+fn path_has_dot_segment(p: &str) -> bool {
+    rfc::has_dot_segment(p)
+}
+
+/// byte length of the longest common prefix
+fn lcp(a: &str, b: &str) -> usize {
+    a.bytes().zip(b.bytes()).take_while(|(x, y)| x == y).count()
+}
+
+/// Key describing the trigger in the input (for signatures), computed from (base, iri) only.
+fn trigger(base: &str, iri: &str) -> &'static str {
+    let b = rfc::split(base);
+    let i = rfc::split(iri);
+    if b.scheme != i.scheme {
+        return "scheme-differs";
+    }
+    if b.authority != i.authority {
+        return "authority-differs";
+    }
+    if b.path == i.path {
+        return if b.query.is_some() && i.query.is_none() {
+            "same-path/base-query-must-be-dropped"
+        } else {
+            "same-path"
+        };
+    }
+    if path_has_dot_segment(i.path) {
+        return "iri-has-dot-segments";
+    }
+    // remainder of the IRI after the deepest directory shared with the base
+    let path_begin = base.len() - b.path.len() - b.query.map(|q| q.len() + 1).unwrap_or(0) - b.fragment.map(|f| f.len() + 1).unwrap_or(0);
+    let base_path_end = path_begin + b.path.len();
+    let mut l = lcp(base, iri).min(base_path_end);
+    while !base.is_char_boundary(l) {
+        l -= 1;
+    }
+    let dir_end = base[path_begin..l].rfind('/').map(|k| path_begin + k + 1).unwrap_or(path_begin);
+    let rest = &iri[dir_end.min(iri.len())..];
+    let rest_path = &rest[..rest.find(['?', '#']).unwrap_or(rest.len())];
+    let first = rest_path.split('/').next().unwrap_or("");
+    // the base without its fragment is a proper string prefix of the IRI, which continues inside the same component
+    let base_nofrag = &base[..base.len() - b.fragment.map(|f| f.len() + 1).unwrap_or(0)];
+    if iri.len() > base_nofrag.len() && iri.starts_with(base_nofrag) && !iri[base_nofrag.len()..].starts_with('#') {
+        return "base-is-string-prefix";
+    }
+    if first.contains(':') {
+        return "first-segment-has-colon";
+    }
+    if rest_path.starts_with('/') {
+        return "empty-segment-after-common-directory";
+    }
+    if rest_path.is_empty() {
+        return "iri-path-is-common-directory";
+    }
+    if b.authority.is_none() && !b.path.starts_with('/') {
+        return "rootless-base";
+    }
+    "other"
+}
+
+fn dotdot_count(r: &str) -> usize {
+    let p = rfc::split(r);
+    p.path.split('/').filter(|s| *s == "..").count()
+}
+
+fn seg_pool() -> Vec<&'static str> {
+    vec!["a", "b", "c", "ab", "", "x:y", "é", "è", "éa", "%2e", "a;p", "a.b", ":", "@", "d", "bc", "ü", "..."]
+}
+fn seg() -> BoxedStrategy<&'static str> {
+    prop_oneof![16 => pick(seg_pool()), 1 => pick(vec![".", ".."])].boxed()
+}
+
+#[derive(Clone, Debug)]
+struct Gen {
+    scheme: &'static str,
+    auth: Option<&'static str>,
+    rooted: bool,
+    segs: Vec<&'static str>,
+    q: Option<&'static str>,
+    f: Option<&'static str>,
+    // edits
+    keep: usize,
+    add: Vec<&'static str>,
+    q2: u8,
+    f2: u8,
+    qpool: Option<&'static str>,
+    fpool: Option<&'static str>,
+    auth2: u8,
+    scheme2: u8,
+    suffix: Option<&'static str>,
+    same_path: bool,
+}
+
+fn compose(scheme: &str, auth: Option<&str>, rooted: bool, segs: &[&str], q: Option<&str>, f: Option<&str>) -> String {
+    let mut out = format!("{scheme}:");
+    let mut path = segs.join("/");
+    if let Some(a) = auth {
+        out.push_str("//");
+        out.push_str(a);
+        if !segs.is_empty() {
+            path = format!("/{path}");
+        }
+    } else if rooted {
+        path = format!("/{path}");
+    }
+    out.push_str(&path);
+    if let Some(q) = q {
+        out.push('?');
+        out.push_str(q);
+    }
+    if let Some(f) = f {
+        out.push('#');
+        out.push_str(f);
+    }
+    out
+}
+
+fn build(g: Gen) -> (String, String) {
+    let base = compose(g.scheme, g.auth, g.rooted, &g.segs, g.q, g.f);
+    let scheme = match g.scheme2 {
+        0 => "https",
+        1 => "b",
+        _ => g.scheme,
+    };
+    let auth = match g.auth2 {
+        0 => Some("ab"),
+        1 => None,
+        2 => Some("a:80"),
+        3 => Some(""),
+        _ => g.auth,
+    };
+    let mut segs: Vec<&str> = if g.same_path { g.segs.clone() } else { g.segs[..g.keep.min(g.segs.len())].to_vec() };
+    if !g.same_path {
+        segs.extend(g.add.iter().copied());
+    }
+    let q = match g.q2 {
+        0 => None,
+        1 => g.qpool,
+        _ => g.q,
+    };
+    let f = match g.f2 {
+        0 => None,
+        1 => g.fpool,
+        _ => g.f,
+    };
+    let mut iri = compose(scheme, auth, g.rooted, &segs, q, f);
+    if let Some(s) = g.suffix {
+        iri = format!("{base}{s}");
+    }
+    (base, iri)
+}
+
+impl Check for C17 {
+    type Case = Case;
+    const ID: &'static str = "C17";
+    fn rule() -> String {
+        "(base, IRI, parents) triples of valid absolute IRIs where the IRI is derived from the base by keeping a prefix of its path segments and appending segments from a pool (empty, dot, colon-bearing, multi-byte, prefix-of-each-other segments), by editing query/fragment/authority/scheme, or by appending characters to the base string. Non-trivial = the longest common byte prefix reaches into (or beyond) the path of the base; distinct by hash of the case.".into()
+    }
+    fn assumptions() -> Vec<String> {
+        vec![
+            "'resolving' = sophia's own BaseIri::resolve (the property's observe_at); the RFC 3986 reference resolver is also run and disagreements between the two resolvers are counted (class rfc-resolver-differs), not failed: they are C09's recorded resolver findings".into(),
+            "parent-directory steps of a reference = number of '..' segments in its path".into(),
+            "the 'always relativised' clause is not demanded when the IRI's path contains dot segments, the base has a query and the IRI has none: no relative reference resolves to such an IRI, so clause 1 and clause 3 cannot both be met".into(),
+        ]
+    }
+    fn cases(tier: Tier) -> u32 {
+        tier.pick(1_500_000, 45_000_000)
+    }
+    fn strategy(_tier: Tier) -> BoxedStrategy<Case> {
+        let segs = prop::collection::vec(seg(), 0..6);
+        let add = prop::collection::vec(seg(), 0..4);
+        let qpool = vec![None, Some(""), Some("q"), Some("qx"), Some("a/b"), Some("a?b"), Some("q/../r"), Some("x:y")];
+        let fpool = vec![None, Some(""), Some("f"), Some("fx"), Some("f/g?h"), Some("../f")];
+        let g1 = (
+            pick(vec!["http", "a", "x-ample", "urn"]),
+            pick(vec![Some("a"), Some("a"), None, Some(""), Some("a:80"), Some("u@h"), Some("[::1]"), Some("é.org")]),
+            any::<bool>(),
+            segs,
+            pick(qpool.clone()),
+            pick(fpool.clone()),
+        );
+        let g2 = (
+            0..7usize,
+            add,
+            0..5u8,
+            0..5u8,
+            pick(qpool),
+            pick(fpool),
+            prop_oneof![12 => Just(9u8), 1 => 0..4u8],
+            prop_oneof![20 => Just(9u8), 1 => 0..2u8],
+            prop_oneof![8 => Just(None), 1 => pick(vec![Some("c"), Some("/"), Some("x:y"), Some("?"), Some("#"), Some("é"), Some("/.."), Some("//d"), Some(":8"), Some("?q"), Some("#f")])],
+            prop::bool::weighted(0.15),
+        );
+        (g1, g2, pick(vec![0u8, 1, 2, 3, 255]))
+            .prop_map(|((scheme, auth, rooted, segs, q, f), (keep, add, q2, f2, qpool, fpool, auth2, scheme2, suffix, same_path), parents)| {
+                let (base, iri) = build(Gen { scheme, auth, rooted, segs, q, f, keep, add, q2, f2, qpool, fpool, auth2, scheme2, suffix, same_path });
+                Case { base, iri, parents }
+            })
+            .boxed()
+    }
+    fn fixed_cases(_tier: Tier, _seed: u64) -> Vec<Case> {
+        // the repository's own matrix (bases x references) and then some, for every parents value
+        let bases = [
+            "http://a/b/c/d?q#f?f",
+            "http://a/b/c/d?q",
+            "http://a/b/c/d#f?f",
+            "http://a/b/c/d",
+            "x-ample:bb/c/d?q#f?f",
+            "x-ample:bb/c/d",
+            "http://a",
+            "http://a/",
+            "http://a?q",
+            "a:",
+            "a:?q",
+            "a:b",
+            "a:/b",
+            "http://a/b/",
+            "http://a//b//c",
+        ];
+        let refs = [
+            "", "#F0", "?Q0", "?Q0#F0", "P0", "P0#F0", "P0?Q0", "./", "./#F1", "./?Q1", "../P1", "../", "../?Q2", "../../P2", "../../", "../../../P3", "/R", "/", "x/y/z", "./x:y", ".//d",
+            "g;x", "../..//e", "//h/p", "http://a/b/c/dd", "http://ab/",
+        ];
+        let mut v = vec![];
+        for b in bases {
+            for r in refs {
+                if !rfc::is_iri(b) || !rfc::is_iri_reference(r) {
+                    continue;
+                }
+                let iri = rfc::resolve(b, r);
+                if !rfc::is_iri(&iri) {
+                    continue;
+                }
+                for p in [0u8, 1, 2, 3] {
+                    v.push(Case { base: b.to_string(), iri: iri.clone(), parents: p });
+                }
+            }
+        }
+        v
+    }
+    fn run(case: &Case, ctx: &mut Ctx) {
+        use sophia_iri::relativize::Relativizer;
+        use sophia_iri::resolve::BaseIri;
+        use sophia_iri::Iri;
+        let (base, iri, parents) = (case.base.as_str(), case.iri.as_str(), case.parents);
+        if !(rfc::is_iri(base) && rfc::is_iri(iri)) {
+            ctx.class("skipped:not-valid-IRIs");
+            return;
+        }
+        if Iri::new(base).is_err() || Iri::new(iri).is_err() || BaseIri::new(base).is_err() {
+            // C09's business
+            ctx.class("skipped:validator-disagrees");
+            return;
+        }
+        let tr = trigger(base, iri);
+        ctx.class(format!("trigger:{tr}"));
+        ctx.class(format!("parents:{parents}"));
+        let b = rfc::split(base);
+        let i = rfc::split(iri);
+        let path_begin = base.len() - b.path.len() - b.query.map(|q| q.len() + 1).unwrap_or(0) - b.fragment.map(|f| f.len() + 1).unwrap_or(0);
+        let l = lcp(base, iri);
+        if l > path_begin || (l == path_begin && b.scheme == i.scheme && b.authority == i.authority) {
+            ctx.nontrivial();
+        }
+        if !iri.is_char_boundary(l) {
+            ctx.class("divergence-inside-multibyte-char");
+        }
+        let got = catch(|| {
+            let rel = Relativizer::new(BaseIri::new(base).unwrap(), parents);
+            rel.relativize(Iri::new(iri).unwrap()).map(|r| r.unwrap().into_owned())
+        });
+        let same_doc = b.scheme == i.scheme && b.authority == i.authority && b.path == i.path;
+        match got {
+            Err(p) => ctx.fail(format!("relativize/panic/{tr}"), format!("base {base:?} iri {iri:?} parents {parents}: panicked: {p}")),
+            Ok(None) => {
+                ctx.class("result:None");
+                if same_doc {
+                    let unsatisfiable = path_has_dot_segment(i.path) && b.query.is_some() && i.query.is_none();
+                    if unsatisfiable {
+                        ctx.class("same-document:no-reference-exists");
+                    } else {
+                        ctx.fail(
+                            format!("relativize/none-for-same-document/{tr}"),
+                            format!("base {base:?} iri {iri:?} parents {parents}: None, but the IRI differs from the base at most in query/fragment and must always be relativised"),
+                        );
+                    }
+                }
+            }
+            Ok(Some(r)) => {
+                ctx.class("result:Some");
+                let n = dotdot_count(&r);
+                ctx.class(format!("result:dotdot={}", n.min(4)));
+                if !rfc::is_iri_reference(&r) {
+                    ctx.fail(format!("relativize/invalid-reference/{tr}"), format!("base {base:?} iri {iri:?} parents {parents}: returned {r:?}, not an IRI reference"));
+                    return;
+                }
+                if n > parents as usize {
+                    ctx.fail(
+                        format!("relativize/too-many-parent-steps/{tr}"),
+                        format!("base {base:?} iri {iri:?} parents {parents}: returned {r:?} with {n} '..' segments"),
+                    );
+                }
+                let back = catch(|| BaseIri::new(base).unwrap().resolve(r.as_str()).map(|x| x.unwrap()).map_err(|e| e.to_string()));
+                let rfc_back = rfc::resolve(base, &r);
+                match back {
+                    Ok(Ok(x)) if x == iri => {
+                        if rfc_back != iri {
+                            ctx.class("rfc-resolver-differs");
+                            ctx.class(format!("rfc-resolver-differs:{}", if b.authority.is_none() { "base-without-authority" } else { "base-with-authority" }));
+                            if std::env::var_os("C17_DEBUG").is_some() {
+                                eprintln!("rfc-differs: base {base:?} iri {iri:?} parents {parents} -> {r:?}; rfc gives {rfc_back:?}");
+                            }
+                        }
+                    }
+                    other => {
+                        let note = if rfc_back == iri { " (the RFC 3986 reference resolver does give the IRI back: resolver divergence)" } else { "" };
+                        ctx.fail(
+                            format!("relativize/wrong-reference/{tr}"),
+                            format!("base {base:?} iri {iri:?} parents {parents}: returned {r:?}, which resolves to {other:?}, RFC 3986 resolver: {rfc_back:?}{note}"),
+                        );
+                    }
+                }
+            }
+        }
+    }
+    fn show(case: &Case) -> Value {
+        json!({"base": case.base, "iri": case.iri, "parents": case.parents})
+    }
+}
+
+pub fn main(opts: &Opts) -> i32 {
+    drive::<C17>(opts)
 }
 pub fn worker(_args: &[String]) -> i32 {
     2
